@@ -164,6 +164,10 @@ def parse_debug(text):
             mode = 'pairs'
             continue
         if not line.strip():
+            if mode == 'lp' and i < len(lines) and re.match(r'^[0-9. ]*[0-9][0-9. ]*$', lines[i]):
+                # the row of a student with an empty preference list is an empty line
+                out['lp'].append([])
+                continue
             if mode in ('lp', 'cl'):
                 mode = None
             continue
